@@ -5,12 +5,15 @@ import N0Verif.Val
   (`split_with_escape`, `deserialize_list`, `deserialize_key_value`, `deserialize_dict`,
   `serialize_dict`, `unescape`) — property C17.
 
-  The model follows the code **with the fix patches `fixes/C17-a … C17-d` applied**:
+  The model follows the code **with the fix patches `fixes/C17-a … C17-e` applied**:
   * C17-a  the last item is trimmed according to its own escape run (`separated_items[-1]`, not the
            loop variable `item`, which is unbound when the `for` body never ran);
   * C17-b  `serialize_dict` writes reserved characters as `\xNN` with two hex digits;
   * C17-c  `serialize_dict` keeps the integer `capitalize_key` for the recursive call;
-  * C17-d  the halved escape run is written with `escape_character`, not with a literal backslash.
+  * C17-d  the halved escape run is written with `escape_character`, not with a literal backslash;
+  * C17-e  `unescape` hands `unicode_escape` Latin-1 bytes (other characters as `\uNNNN` escapes)
+           instead of UTF-8 bytes, and `serialize_dict` writes a reserved character above U+00FF as
+           `\uNNNN` / `\UNNNNNNNN` instead of `\x` followed by more than two digits.
 
   Scope: the escape character is `None`/`''` (`none`) or one character; delimiters and equal tags
   are arbitrary strings (the empty one raises `ValueError`, as `str.split` does); `maxsplit` is a
@@ -215,9 +218,26 @@ def deserializeDict (s d eq : Str) (pe : Bool) (dk dv : Option Str) :
 def hexDigit (n : Nat) : Char :=
   if n < 10 then Char.ofNat (48 + n) else Char.ofNat (87 + n)
 
-/-- `f"{n:02x}"` -/
-def hex2 (n : Nat) : Str :=
-  if n < 256 then [hexDigit (n / 16), hexDigit (n % 16)] else Proto.toHex n
+/-- `f"{n:02x}"` for `n < 0x100` -/
+def hex2 (n : Nat) : Str := [hexDigit (n / 16), hexDigit (n % 16)]
+
+/-- `f"{n:04x}"` for `n < 0x10000` -/
+def hex4 (n : Nat) : Str :=
+  [hexDigit (n / 4096 % 16), hexDigit (n / 256 % 16), hexDigit (n / 16 % 16), hexDigit (n % 16)]
+
+/-- `f"{n:08x}"` for `n < 0x100000000` -/
+def hex8 (n : Nat) : Str :=
+  [hexDigit (n / 268435456 % 16), hexDigit (n / 16777216 % 16), hexDigit (n / 1048576 % 16),
+   hexDigit (n / 65536 % 16), hexDigit (n / 4096 % 16), hexDigit (n / 256 % 16), hexDigit (n / 16 % 16),
+   hexDigit (n % 16)]
+
+/-- the escape notation of a code point: `\xNN`, `\uNNNN` above U+00FF, `\UNNNNNNNN` above U+FFFF
+(what `serialize_dict` writes for a reserved character — fix C17-e — and what the error handler
+`backslashreplace` writes for a character that Latin-1 cannot encode) -/
+def escNote (n : Nat) : Str :=
+  if n < 0x100 then '\\' :: 'x' :: hex2 n
+  else if n < 0x10000 then '\\' :: 'u' :: hex4 n
+  else '\\' :: 'U' :: hex8 n
 
 def isAscii (s : Str) : Bool := s.all (fun c => c.toNat < 128)
 
@@ -231,7 +251,7 @@ def capStr (cap : Int) (s : Str) : PyM Str :=
 def dangerous (d eq : Str) : Str := ['{', '}', '[', ']', '"', '\\'] ++ d ++ eq
 
 def escChar (dang : Str) (c : Char) : Str :=
-  if dang.contains c then '\\' :: 'x' :: hex2 c.toNat else [c]
+  if dang.contains c then escNote c.toNat else [c]
 
 /-- the loop that protects reserved characters -/
 def escapeValue (dang : Str) (s : Str) : Str := s.flatMap (escChar dang)
@@ -310,7 +330,7 @@ end
 def serializeDict (d eq : Str) (v : Val) : PyM (Option Str) :=
   ser ⟨d, eq, true, true, 0, 0⟩ 0 v
 
-/-! ### `unescape` = `s.encode().decode('unicode_escape')` -/
+/-! ### `unescape` = `s.encode('latin-1', 'backslashreplace').decode('unicode_escape')` -/
 
 inductive UErr | UnicodeDecodeError | AttributeError | Unsupported
   deriving DecidableEq, Repr
@@ -319,14 +339,6 @@ def UErr.name : UErr → String
   | .UnicodeDecodeError => "UnicodeDecodeError"
   | .AttributeError => "AttributeError"
   | .Unsupported => "Unsupported"
-
-/-- UTF-8 bytes of a code point -/
-def utf8 (c : Char) : List Nat :=
-  let n := c.toNat
-  if n < 0x80 then [n]
-  else if n < 0x800 then [0xC0 + n / 64, 0x80 + n % 64]
-  else if n < 0x10000 then [0xE0 + n / 4096, 0x80 + (n / 64) % 64, 0x80 + n % 64]
-  else [0xF0 + n / 262144, 0x80 + (n / 4096) % 64, 0x80 + (n / 64) % 64, 0x80 + n % 64]
 
 def hexVal (c : Char) : Option Nat :=
   if '0' ≤ c ∧ c ≤ '9' then some (c.toNat - 48)
@@ -395,7 +407,9 @@ def unescB : Nat → Str → Except UErr Str
           else if k = 'N' then .error .Unsupported
           else (unescB f s1).map (fun r => '\\' :: k :: r)   -- unknown escape: kept
 
-def toBytes (s : Str) : Str := s.flatMap (fun c => (utf8 c).map Char.ofNat)
+/-- `s.encode('latin-1', 'backslashreplace')`: a character up to U+00FF is its own byte, any other
+is spelled `\uNNNN` / `\UNNNNNNNN` (fix C17-e; before it the text was encoded as UTF-8) -/
+def toBytes (s : Str) : Str := s.flatMap (fun c => if c.toNat < 0x100 then [c] else escNote c.toNat)
 
 /-- `unescape(s)` for a string -/
 def unescape (s : Str) : Except UErr Str :=
